@@ -1054,11 +1054,15 @@ class TransactionEvaluator:
                 # "NETFLIX" in description
                 if isinstance(right, str):
                     result = left.upper() in right.upper() if isinstance(left, str) else left in right
+                elif isinstance(right, (list, tuple, set, frozenset)):
+                    result = self._in_collection(left, right)
                 else:
                     result = left in right
             elif isinstance(op, ast.NotIn):
                 if isinstance(right, str):
                     result = left.upper() not in right.upper() if isinstance(left, str) else left not in right
+                elif isinstance(right, (list, tuple, set, frozenset)):
+                    result = not self._in_collection(left, right)
                 else:
                     result = left not in right
             else:
@@ -1069,6 +1073,22 @@ class TransactionEvaluator:
             left = next_left
 
         return True
+
+    def _in_collection(self, item: Any, collection) -> bool:
+        """`item in [...]` is any(item == e for e in [...]) with the == of the language:
+        strings ignore letter case and a date equals its ISO date string."""
+        for element in collection:
+            left, right = item, element
+            if isinstance(left, date_type) and isinstance(right, str):
+                right = self._parse_date_string(right)
+            elif isinstance(left, str) and isinstance(right, date_type):
+                left = self._parse_date_string(left)
+            if isinstance(left, str) and isinstance(right, str):
+                if left.lower() == right.lower():
+                    return True
+            elif left == right:
+                return True
+        return False
 
     def _eval_Attribute(self, node: ast.Attribute) -> Any:
         """Handle attribute access like field.txn_type, txn.amount, or r.item."""
